@@ -1,5 +1,5 @@
 \* exhaustive check, coarse granularity (a reconcile runs without foreign steps; every call may fail)
-CONSTANTS Pods = {"p1", "p2"}  Tol = {"p2"}
+CONSTANTS Pods = {"p1", "p2"}  Tol = {"p2"}  Late = {"p2"}
   Starts = {"registered", "launched", "unpersisted", "fresh"}
   VaOwners = {"p1", "p2"}  TGPs <- BoolBoth  Instants <- BoolF
   MaxFaults = 1  MaxRestarts = 1  MaxLen = 1000  MaxSpont = 99
